@@ -461,9 +461,17 @@ def C07(c):
         c.coverage["late_positions"] = st.get("late_positions", 0)
         c.coverage["long_steps_total"] = st.get("long_steps", 0)
         c.coverage["lstep_checks"] = r.get("summary", {}).get("lsteps", 0)
+        r2 = run_suite(exe, "indapi", c.seed, c.tier, "C07-indicators", ["--which", "long"])
+        c.add_suite(r2, sig_method)
+        c.coverage["indicator_late_positions"] = r2.get("stats", {}).get("long_ind_positions", 0)
     return c.finish(
         level="proof",
         trusted=TRUSTED_COMMON + NUMERIC_TRUST + [
+            "indicators: every indicator (default + one random configuration) runs 9 000 (thorough 150 000) candles through volatile / "
+            "flat / long one-directional ramps / 1e6 / 1e-3 / zero-volume regimes and must not panic; at late positions the result "
+            "must agree (values to 1e-6 relative, signals exactly when the values are bit-identical) with a fresh instance started "
+            "80x(total period)+400 candles earlier; the parabolic SAR and explicitly cumulative configurations (window = 0) have "
+            "unbounded memory by definition and are checked for panics only (Rust-vs-Rust, no model)",
             "locality / forgetting theorems reduce every history length to a bounded suffix for the specs; that the floating-point "
             "accumulators stay within the allowance a = 1024*eps*(t+n)*scale at late positions is measured on the generated streams "
             "(quick: 12 000 steps per instance, thorough: 2 000 000), not proved; the double-accumulator averages (WMA, LinReg, SWMA) "
